@@ -551,4 +551,91 @@ Proof.
         subst st1; destruct stb; cbn in *; subst; reflexivity.
 Qed.
 
+(* push stream: behind the push id it is a request / push stream *)
+Lemma push_later : forall st1 p c b fin,
+  s_stype st1 = Some 1 -> s_push st1 = Some p -> s_ended st1 = false ->
+  uni_spec st1 c b fin = of_rres c (rq_recv fx O (c_client c) st1 b fin).
+Proof.
+  intros st1 p c b fin H1 H2 H3. rewrite (uni_spec_typed st1 1) by assumption.
+  cbv zeta. cbn [stream_loops Z.eqb Pos.eqb orb negb]. unfold tspec. cbn [Z.eqb Pos.eqb]. unfold push_parse.
+  replace (s_push (set_stype (set_ended (set_buf st1 (s_buf st1 ++ b)) fin) (Some 1))) with (Some p)
+    by (destruct st1; cbn in *; congruence).
+  f_equal.
+  rewrite rq_recv_norm by (destruct fin; [left; reflexivity | right; destruct st1; reflexivity]).
+  rewrite (rq_recv_norm _ st1 b) by (right; assumption).
+  f_equal; destruct st1; cbn in *; subst; rewrite ?app_nil_r; reflexivity.
+Qed.
+
+Lemma push_core : forall S0 p c r b fin,
+  fx_trunc fx = true -> fx_endmark fx = true ->
+  stream_ok S0 -> s_stype S0 = Some 1 -> s_push S0 = Some p ->
+  uequiv (of_rres c (rq_recv fx O (c_client c) S0 (r ++ b) fin))
+         (ubind (of_rres c (rq_recv fx O (c_client c) S0 r false)) (fun st1 c1 => uni_spec st1 c1 b fin)).
+Proof.
+  intros S0 p c r b fin Htr Hem Hok H1 H2.
+  pose proof (two_chunks fx O (c_client c) Htr Hem S0 r b fin Hok) as T.
+  destruct (rq_recv fx O (c_client c) S0 r false) as [e1 st1| |] eqn:EA.
+  - cbn [of_rres ubind].
+    pose proof (rq_recv_keeps _ _ _ _ _ _ EA) as [K1 K2].
+    pose proof (recv_ok fx O (c_client c) Htr Hem _ _ _ _ Hok EA) as (K3 & _).
+    rewrite (push_later st1 p) by congruence.
+    cbn [rbind] in T.
+    destruct (rq_recv fx O (c_client c) st1 b fin) as [e2 st2| |];
+      destruct (rq_recv fx O (c_client c) S0 (r ++ b) fin) as [e st| |]; cbn in *; try tauto.
+  - destruct (rq_recv fx O (c_client c) S0 (r ++ b) fin); cbn in *; tauto.
+  - destruct (rq_recv fx O (c_client c) S0 (r ++ b) fin); cbn in *; tauto.
+Qed.
+
+Lemma ok_push_base : forall stb y z, stream_ok stb -> stream_ok (set_ended (set_buf (set_push (set_stype stb y) z) []) false).
+Proof.
+  intros stb y z (K1 & K2 & K3). destruct stb; cbn in *. repeat split; cbn; auto.
+Qed.
+
+Lemma push_two : forall stb zw za c x b fin,
+  fx_trunc fx = true -> fx_endmark fx = true -> stream_ok stb ->
+  uequiv (tspec fin (set_ended (set_buf stb zw) fin) 1 c (x ++ b))
+         (ubind (tspec false (set_buf stb za) 1 c x) (fun st1 c1 => uni_spec st1 c1 b fin)).
+Proof.
+  intros stb zw za c x b fin Htr Hem Hok. pose proof Hok as (He & _ & _).
+  unfold tspec. cbn [Z.eqb Pos.eqb]. unfold push_parse.
+  replace (s_push (set_stype (set_ended (set_buf stb zw) fin) (Some 1))) with (s_push stb) by (destruct stb; reflexivity).
+  replace (s_push (set_stype (set_buf stb za) (Some 1))) with (s_push stb) by (destruct stb; reflexivity).
+  destruct (s_push stb) as [p|] eqn:Ep.
+  - set (S0 := set_ended (set_buf (set_push (set_stype stb (Some 1)) (Some p)) []) false).
+    rewrite rq_recv_norm by (destruct fin; [left; reflexivity | right; destruct stb; reflexivity]).
+    rewrite (rq_recv_norm _ (set_buf (set_stype (set_buf stb za) (Some 1)) x)) by (right; destruct stb; cbn in *; congruence).
+    replace (set_ended (set_buf (set_buf (set_stype (set_ended (set_buf stb zw) fin) (Some 1)) (x ++ b)) []) false) with S0
+      by (subst S0; destruct stb; cbn in *; subst; reflexivity).
+    replace (set_ended (set_buf (set_buf (set_stype (set_buf stb za) (Some 1)) x) []) false) with S0
+      by (subst S0; destruct stb; cbn in *; subst; reflexivity).
+    rewrite !s_buf_set_buf, !app_nil_r.
+    apply (push_core S0 p); auto; try (apply ok_push_base; assumption); subst S0; destruct stb; reflexivity.
+  - destruct (pull_uint_var x) as [[p r]|] eqn:P.
+    + rewrite (pull_app _ b _ _ P).
+      set (S0 := set_ended (set_buf (set_push (set_stype stb (Some 1)) (Some p)) []) false).
+      rewrite rq_recv_norm by (destruct fin; [left; reflexivity | right; destruct stb; reflexivity]).
+      rewrite (rq_recv_norm _ (set_buf (set_push (set_stype (set_buf stb za) (Some 1)) (Some p)) r))
+        by (right; destruct stb; cbn in *; congruence).
+      replace (set_ended (set_buf (set_buf (set_push (set_stype (set_ended (set_buf stb zw) fin) (Some 1)) (Some p)) (r ++ b)) []) false)
+        with S0 by (subst S0; destruct stb; cbn in *; subst; reflexivity).
+      replace (set_ended (set_buf (set_buf (set_push (set_stype (set_buf stb za) (Some 1)) (Some p)) r) []) false)
+        with S0 by (subst S0; destruct stb; cbn in *; subst; reflexivity).
+      rewrite !s_buf_set_buf, !app_nil_r.
+      apply (push_core S0 p); auto; try (apply ok_push_base; assumption); subst S0; destruct stb; reflexivity.
+    + (* the push id is still incomplete *)
+      cbn [ubind].
+      set (st1 := set_buf (set_stype (set_buf stb za) (Some 1)) x).
+      rewrite (uni_spec_typed st1 1) by (subst st1; destruct stb; cbn in *; congruence).
+      cbv zeta. cbn [stream_loops Z.eqb Pos.eqb orb negb].
+      replace (s_buf st1) with x by (subst st1; destruct stb; reflexivity).
+      unfold tspec. cbn [Z.eqb Pos.eqb]. unfold push_parse.
+      replace (s_push (set_stype (set_ended (set_buf st1 (x ++ b)) fin) (Some 1))) with (@None Z)
+        by (subst st1; destruct stb; cbn in *; congruence).
+      destruct (pull_uint_var (x ++ b)) as [[p r]|].
+      * match goal with |- uequiv (of_rres c ?A) (match of_rres c ?B with _ => _ end) =>
+          replace B with A; [destruct A; cbn; rewrite ?app_nil_r; auto|..] end;
+          try (f_equal; subst st1; destruct stb; cbn in *; subst; reflexivity).
+      * cbn. repeat split; auto; subst st1; destruct stb; cbn in *; subst; reflexivity.
+Qed.
+
 End Uni.
